@@ -63,6 +63,13 @@ def handle : List String → Verdict
           else none,
         nontrivial := true, tags := ["selffail:" ++ comp], sig := s!"selffail;{comp}" }
     | _, _ => .badOp
+  | ["silentw", via, sizeS, limS, zeroS, swS, outcome, wholeS] =>
+    -- a writer that stops accepting bytes without reporting an error
+    { predfail :=
+        if outcome == "hang" then some s!"{via}: a {sizeS}-byte document to a writer that silently stops accepting after {limS} bytes (zero={zeroS}, StringWriter={swS}): the render did not return within 2 s"
+        else if outcome == "nil" && wholeS != "1" then some s!"{via}: a {sizeS}-byte document to a writer that silently stops accepting after {limS} bytes (zero={zeroS}, StringWriter={swS}): Render returned nil although the writer did not get the whole document"
+        else none,
+      nontrivial := true, tags := ["silent-writer:" ++ outcome], sig := s!"silentw;{via};{outcome}" }
   | ["after", comp, docH, gotH, errKind] =>
     -- a healthy render right after a failed one, sharing the pools
     match hexField docH, hexField gotH with
